@@ -67,6 +67,11 @@ def dss_blob(seed=1):
     return wire.string(b'ssh-dss') + wire.mpint(p) + wire.mpint(q) + wire.mpint(g) + wire.mpint(y)
 
 
+def sk_ed25519_blob(seed=5):
+    """FIDO/U2F-backed Ed25519 key (PROTOCOL.u2f): type, 32-byte public key, application string."""
+    return wire.string(b'sk-ssh-ed25519@openssh.com') + wire.string(hashlib.sha256(b'sk-ed25519-%d' % seed).digest()) + wire.string(b'ssh:')
+
+
 def ca_key_blob(ca):
     """ca = ('rsa', bits) | ('ed25519',) | ('ecdsa', curve)"""
     if ca[0] == 'rsa':
